@@ -208,7 +208,16 @@ def fresh_state(interp, ctx, shape, prefix='s.', src=None):
     for fld in dataclasses.fields(st.State):
         if fld.name in f:
             continue
-        if fld.default is not dataclasses.MISSING:
+        ann = str(fld.type).replace(' ', '')
+        if ann in ('int|None', 'Optional[int]', 'None|int'):
+            # a scalar the contracts do not know: ANY value it may have been left with (not just its default)
+            none = b.bool(fld.name + '?none')
+            f[fld.name] = Choice(((none, None), (z3.Not(none), b.int(fld.name))))
+        elif ann == 'int':
+            f[fld.name] = b.int(fld.name)
+        elif ann == 'bool':
+            f[fld.name] = b.bool(fld.name)
+        elif fld.default is not dataclasses.MISSING:
             f[fld.name] = interp.from_native(fld.default)
         elif fld.default_factory is not dataclasses.MISSING:
             try:
